@@ -94,6 +94,16 @@ Proof.
     + apply overwrite_length. lia.
 Qed.
 
+Lemma run_helper_is_spec {A} hc extra (payload : list A) len buf size :
+  hc_equiv hc extra = true ->
+  N.of_nat (List.length payload) = (len + N.of_nat extra)%N ->
+  run_helper hc payload len buf size = spec_helper (hc_msg hc) payload buf size.
+Proof.
+  intros Heq Hlen. unfold run_helper, spec_helper. rewrite Hlen. destruct buf as [c|].
+  - now rewrite (hc_equiv_cmp _ _ _ _ Heq).
+  - now rewrite (hc_equiv_query _ _ Heq).
+Qed.
+
 (* obligations over the regenerated helper table *)
 Lemma helper_table_ok :
   hc_equiv (hcode HCopyVector) 0 = true /\ hc_equiv (hcode HMoveVector) 0 = true /\
@@ -109,6 +119,21 @@ Proof.
   - intros A src. apply (run_helper_spec _ 0); [exact Hv|]. lia.
   - intros A src. apply (run_helper_spec _ 0); [exact Hm|]. lia.
   - intros str. apply (run_helper_spec _ 1); [exact Hs|]. rewrite app_length. cbn. lia.
+Qed.
+
+(* the three helpers as read from internal.h ARE the executable specification *)
+Theorem helpers_meet_spec :
+  (forall A (src : list A) buf size,
+      copy_vector_to_array (hcode HCopyVector) src buf size = spec_helper (hc_msg (hcode HCopyVector)) src buf size) /\
+  (forall A (src : list A) buf size,
+      move_vector_to_array_of_c_ptrs (hcode HMoveVector) src buf size = spec_helper (hc_msg (hcode HMoveVector)) src buf size) /\
+  (forall str buf size,
+      copy_string_to_array (hcode HCopyString) str buf size = spec_helper (hc_msg (hcode HCopyString)) (str ++ [NUL]) buf size).
+Proof.
+  destruct helper_table_ok as (Hv & Hm & Hs). split; [|split].
+  - intros A src buf size. apply (run_helper_is_spec _ 0); [exact Hv|]. lia.
+  - intros A src buf size. apply (run_helper_is_spec _ 0); [exact Hm|]. lia.
+  - intros str buf size. apply (run_helper_is_spec _ 1); [exact Hs|]. rewrite app_length. cbn. lia.
 Qed.
 
 (* ================================================================== 2. one call, any row *)
